@@ -23,7 +23,13 @@ import (
 	"verif/engine/interp"
 )
 
-const verifDir = "/verif"
+// verifDir: VERIF_DIR is a development override (a snapshot of /verif used by background runs); registered commands never set it
+var verifDir = func() string {
+	if d := os.Getenv("VERIF_DIR"); d != "" {
+		return d
+	}
+	return "/verif"
+}()
 
 // repoDir is /repo; VERIF_REPO overrides it for development runs against a scratch worktree
 // (registered commands never set it).
@@ -126,7 +132,11 @@ func runHarnesses(p *interp.Program, names []string, thorough bool, jobs int, pe
 				}
 			}()
 			opt := interp.Options{Thorough: thorough, Deadline: time.Now().Add(perHarness), KnownLabels: known, Debug: debug, SamplePaths: samples}
-			opt.TraceThreads = strings.Contains(n, "_trace")
+			opt.Sched = strings.Contains(n, "_sched")
+			opt.TraceThreads = strings.Contains(n, "_trace") || opt.Sched
+			if d, _ := harnessPkg(p, n); true {
+				opt.PkgDir = filepath.Join(repoDir, d)
+			}
 			if b := os.Getenv("VERIF_BACKEND"); b != "" {
 				opt.Backend = b
 			}
